@@ -23,6 +23,7 @@ func c01() *core.Check {
 		{Gen: "novel", Dict: "sqlext", N: 200000},
 		{Gen: "wl", N: 120000},
 		{Gen: "scale", N: 64 << 10},
+		{Gen: "scale", N: 288 << 10},
 	}
 	thorough := []Mix{
 		{Gen: "corpus"}, {Gen: "bytes"}, {Gen: "trunc"},
@@ -39,7 +40,7 @@ func c01() *core.Check {
 	}
 	return &core.Check{
 		ID: "C01",
-		Rule: "inputs: corpus + seeds, every prefix/suffix/dangling-opener truncation of them, bounded-exhaustive atom sequences over byte-class-complete dictionaries, random atom sequences, havoc and novelty-guided mutation, whitelist-directed shapes, all 256 bytes x {1,2,3,33}, every scale family at 64 KiB (thorough: 1 MiB). " +
+		Rule: "inputs: corpus + seeds, every prefix/suffix/dangling-opener truncation of them, bounded-exhaustive atom sequences over byte-class-complete dictionaries, random atom sequences, havoc and novelty-guided mutation, whitelist-directed shapes, all 256 bytes x {1,2,3,33}, every scale family at 64 KiB and 288 KiB (more than 65 536 tokens; thorough: 1 MiB). " +
 			"Each case runs IsSQLi, then each of the five contexts on fresh state, then the raw tokenizer in six modes. Non-trivial = some context produced a non-empty fingerprint; distinct = distinct inputs (hash bit-table, lower bound).",
 		Plan: func(tier string, seed uint64) []core.Unit {
 			if tier == "thorough" {
